@@ -3,6 +3,7 @@ import LentilVerif.Lemmas.Extent
 import LentilVerif.Lemmas.Field
 import LentilVerif.Lemmas.Reduce
 import LentilVerif.Lemmas.ReduceZ
+import LentilVerif.Gen.FieldMerge
 import Mathlib.Algebra.Ring.Defs
 import Mathlib.Tactic.SplitIfs
 import Mathlib.Algebra.GroupWithZero.Defs
@@ -212,6 +213,20 @@ example : (∀ f ∈ [Ex.N1, Ex.N2], 0 < f.arr.s0 ∧ 0 < f.arr.s1) ∧
   decide
 /-- the excluded corner is real: a lone one-element field at the origin cannot be merged (NumPy raises there) -/
 example : (mergeL [(⟨⟨1, 1, fun _ _ => (5 : Int)⟩, 0, 0⟩ : Fld Int)]).isNone = true := by decide
+
+/-- the per-field slice of `_merge_slices` (generated `Gen.mergeSlice`, general branch) is the closed form the hand model
+`mergeL` writes in its guard (`e.rmin − b.rmin ≤ i < e.rmax − b.rmin + 1`, same for columns); and for a member extent
+contained in the box it is in range of the merged array (`_merge_shape`) and has exactly the member's shape, so
+`out[slc] += field.data` is well-formed -/
+theorem merge_slices_spec (b e : Extent) :
+    Gen.mergeSlice b.rmin b.rmax b.cmin b.cmax e.rmin e.rmax e.cmin e.cmax =
+      ((e.rmin - b.rmin, e.rmax - b.rmin + 1), (e.cmin - b.cmin, e.cmax - b.cmin + 1)) ∧
+    ((b.rmin ≤ e.rmin ∧ e.rmax ≤ b.rmax ∧ b.cmin ≤ e.cmin ∧ e.cmax ≤ b.cmax) →
+      (0 ≤ e.rmin - b.rmin ∧ e.rmax - b.rmin + 1 ≤ b.nrow ∧ 0 ≤ e.cmin - b.cmin ∧ e.cmax - b.cmin + 1 ≤ b.ncol) ∧
+      (e.rmax - b.rmin + 1 - (e.rmin - b.rmin) = e.nrow ∧ e.cmax - b.cmin + 1 - (e.cmin - b.cmin) = e.ncol)) := by
+  refine ⟨by simp [Gen.mergeSlice], fun h => ?_⟩
+  simp only [Extent.nrow, Extent.ncol]; omega
+example : Gen.mergeSlice (-8) 0 (-6) 0 (-6) (-5) (-6) (-5) = ((2, 4), (0, 2)) := by decide
 
 /-! ## Bounding box (`lentil.field.boundary`) -/
 
